@@ -202,6 +202,30 @@ def run(ctx):
                     "make_feasible": case["desc"]["make_feasible"], "mf_outcome": rp.vq_mf})
     ctx.count(evaluations=n_eval, traces=len(cases) * len(CONFIGS))
     ctx.cov["input_distribution"] = stats
+    # half-integer costs (exact in floats) with integer and fractional penalty weights: the QUBO must carry the costs
+    # exactly whatever number types the constraint data happen to have (oracle only; the Coq literals are integers)
+    n_half = 0
+    for _ in range(30 if ctx.quick else 400):
+        desc = fh.random_instance(rng, max_customers=2)
+        desc["arcs"] = [(o, d_, t, c * 0.5 if desc["cost_scale"] == 1 else c) for (o, d_, t, c) in desc["arcs"]]
+        desc["make_feasible"] = None
+        kind = fh.KINDS[n_half % 3]
+        try:
+            rp = fh.BUILDERS[kind](desc)
+            if not 1 <= int(rp.get_num_variables()) <= 10:
+                continue
+        except Exception:  # noqa
+            continue
+        n_half += 1
+        for sig, msg, extra in check_instance(rp, rng)[3]:
+            full = f"{sig}/{kind}/half-costs"
+            if full in reported:
+                continue
+            reported.add(full)
+            ctx.violation(full, f"{kind} (half-integer costs): {msg}",
+                          dict(fh.describe({"kind": kind, "desc": desc, "rp": rp}), **extra,
+                               python="props.c02.check_instance(fh.BUILDERS[kind](desc), random.Random(0))"), True)
+    stats["half_integer_cost_instances"] = n_half
     # path-based problems that grow between two queries (props/c02_grow.py)
     from props import c02_grow
     stats["path_grown_between_queries"] = c02_grow.run_stream(ctx, check_instance, 25 if ctx.quick else 250)
